@@ -64,6 +64,16 @@ def make_renaming(prog, rnd):
     for m in markets:
         if m not in rho:
             rho[m] = pm.pop()
+    # market codes that extend one another after an underscore, at the end (GOOD / HOURS_GOOD: the supply variable of
+    # one market ends like the supply variable of the other) or at the front (WORK / WORK_2), in two thirds of the renamings
+    ms = [m for m in markets if m in rho]
+    if len(ms) >= 2:
+        mode = rnd.choice(['suffix', 'prefix', 'plain'])
+        a, b = rnd.sample(ms, 2)
+        cand = {'suffix': rnd.choice(['HOURS_', 'C_', 'x_']) + rho[a], 'prefix': rho[a] + rnd.choice(['_2', '_B']),
+                'plain': None}[mode]
+        if cand and cand not in rho.values():
+            rho[b] = cand
     # codes that other sectors refer to by name (the issuer of an asset, the receiver of taxes) get, in two thirds of
     # the renamings, a new code that contains - or is contained in - the new code of another sector
     referred = []
